@@ -153,7 +153,28 @@ def snippet_import_guard(P):
     imp = [sw for sw in D.enum_switches(f) if D.short_ty(sw["ety"]) == "ToplevelItem" and sw["bb"] in region]
     if not imp:
         return False, "the sandboxed edge does not inspect the snippet's items"
-    return True, "check_snippet: under enforce_sandbox each Import item is tested with starts_with(\"__\") and a refusal returns before check_toplevel_items"
+    # every item is vetted: the loop that inspects the items is left only when its iterator is exhausted
+    loops = {}
+    for h, a, body in D.natural_loops(f):
+        loops.setdefault(h, set()).update(body)
+    vet = [body for h, body in loops.items() if any(sw["bb"] in body for sw in imp)]
+    if not vet:
+        return False, "the snippet's items are not inspected in a loop"
+    for body in vet:
+        for b in body:
+            outs = [x for x in f.succ[b] if x not in body]
+            if not outs:
+                continue
+            t = f.blocks[b]["term"]
+            exhausted = False
+            if t["t"] == "switch":
+                r = f.root_of(t["discr"])
+                if r[0] == "rv" and r[3]["rv"]["k"] == "discr":
+                    src = f.root_of({"copy": {"l": r[3]["rv"]["place"]["l"], "p": []}}, through_named=True)
+                    exhausted = src[0] == "call" and (M.callee_name(src[2]) or "").endswith("::next")
+            if not exhausted:
+                return False, "the loop that vets the snippet's imports can be left before every item was inspected (an import after that point is never tested)"
+    return True, "check_snippet: under enforce_sandbox every item is inspected, each Import is tested with starts_with(\"__\") and a refusal returns before check_toplevel_items"
 
 
 def read_src_regular_guard(P):
